@@ -84,7 +84,7 @@ def histories(ctx, rng, quick):
     ctx.cov["tlc_tours"] = len(tours)
     ctx.cov["tlc_walks"] = nw
     nl = 0
-    for (n, nk, mm, cnt) in ([(300, 20, 2, 6), (800, 14, 4, 3), (150, 40, 1, 6)] if quick else [(500, 20, 2, 40), (1500, 14, 4, 10), (3000, 20, 3, 3), (300, 40, 1, 40)]):
+    for (n, nk, mm, cnt) in ([(300, 20, 2, 6), (800, 14, 4, 3), (150, 40, 1, 6)] if quick else [(500, 20, 2, 12), (1500, 14, 4, 3), (3000, 20, 3, 1), (300, 40, 1, 12)]):
         for _ in range(cnt):
             lines.append(long_history(rng, n, nk, mm))
             nl += 1
